@@ -66,6 +66,32 @@ def grouped(p):
     return mk('grouped', sig, pre, body)
 
 
+def many_groups(p):
+    """K groups live at once (K crosses table growth steps 8 / 16 / 64; keys are concrete, four item values symbolic): every group receives an item as it is created,
+    then groups 0, 1, K-1 and a middle one receive further, symbolic, items at different rates; each group's outputs equal the plain run of the pipeline on its items"""
+    desc, K = p['desc'], p['k']
+    pre = ['-2**40 <= v%d <= 2**40' % i for i in range(4)]
+
+    def body(a):
+        v0, v1, v2, v3 = a
+        items = [(0, v0)] + [(k, k) for k in range(1, K)] + [(0, v1), (K - 1, v2), (8 % K, v3), (0, v2), (1, v0), (K - 1, v1), (9 % K, 4), (K // 2, v3), (0, 6)]
+        log, err = [], []
+        inner = [rs.ops.map(lambda i: i[1])] + C.build(desc)[0] + [D.tap(log)]
+        D.src(items).pipe(rs.state.with_memory_store([rs.ops.group_by(lambda i: i[0], inner)])).subscribe(on_error=lambda e: err.append(type(e).__name__))
+        buckets, wf = D.lifetimes(log)
+        if len(buckets) != K or not wf or err:
+            return fail(pipeline=C.show(desc), live_groups=K, problem='group lifecycles at the tail of the inner pipeline', groups_seen=len(buckets), stream_error=err)
+        for k in range(K):
+            vals = [v for kk, v in items if kk == k]
+            exp = _plain(vals, desc)
+            if exp and exp[-1] == ('ERR', EMPTY_ERR):
+                continue
+            if buckets[k] != exp:
+                return fail(pipeline=C.show(desc), live_groups=K, group=k, group_items=vals, observed=buckets[k], expected=exp)
+        return True
+    return mk('many_groups', [('v%d' % i, 'int') for i in range(4)], pre, body)
+
+
 def lifetimes(p):
     """keys produced by split / roll instead of group_by: successive lifetimes re-use one key slot; every lifetime's outputs must equal the plain run on that lifetime's items"""
     desc, n, parent = p['desc'], p['n'], p['parent']
@@ -302,7 +328,7 @@ class Floats(object):
         return dict(reproduced=diff is not None, detail=diff or {})
 
 
-FAMILIES = {'grouped': grouped, 'root': root, 'asserting': asserting, 'floats': Floats, 'lifetimes': lifetimes, 'two_stores': two_stores}
+FAMILIES = {'many_groups': many_groups, 'grouped': grouped, 'root': root, 'asserting': asserting, 'floats': Floats, 'lifetimes': lifetimes, 'two_stores': two_stores}
 
 
 def _tee_ok(desc, in_tee=False):
@@ -380,6 +406,11 @@ def obligations(tier, seed):
     for j in ('zip', 'combine_latest', 'merge'):
         for d in ([['tee', j, [[['identity']], [['fill_none']]]]], [['tee', j, [[['do_action']], [['count']], [['fill_none']]]]]):
             obs.append(Ob(PROP, 'grouped', dict(desc=d, n=3, g=2, opt=True), budget=b, group='grouped:optional items', bound=dict(items=3, groups=2, values='int or None', pipeline=C.show(d))))
+    mg = [[['tee', 'zip', [[['filter_even']], [['identity']]]]], [['tee', 'combine_latest', [[['filter_even']], [['scan_add']]]]], [['tee', 'merge', [[['take2']], [['scan_add']]]]],
+          [['scan_add']], [['take2'], ['count']], [['duc'], ['to_list_sum']], [['batch2_sum'], ['last']], [['tee', 'zip', [[['count']], [['filter_odd']], [['identity']]]]]]
+    for d in mg:
+        for k in ((10, 17) if q else (9, 10, 17, 33, 65, 129)):
+            obs.append(Ob(PROP, 'many_groups', dict(desc=d, k=k), budget=b * 2, group='many live groups', bound=dict(live_groups=k, pipeline=C.show(d), symbolic_items=4)))
     ts = [[['take2'], ['count'], ['map_inc']], [['scan_add'], ['first'], ['scan_max']], [['duc'], ['take1'], ['to_list_sum']], [['batch2_sum'], ['last']], [['count'], ['scan_add_r']]]
     for d in ts:
         for cut in range(1, len(d)):
